@@ -1,6 +1,7 @@
 // C07: frg::interval_tree overlap queries against a linear scan.
 // Preconditions: insert only with lo <= hi (asserted), remove only contained nodes, queries with lb <= ub.
 #include <vector>
+#include <cstring>
 #include <algorithm>
 #include <frg/interval_tree.hpp>
 #include "../engine/verif.hpp"
@@ -9,17 +10,20 @@ const char *verif_harness = "interval_seq";
 using namespace verif;
 
 namespace {
+// user-provided constructor that does not mention the hooks, objects created by default-initialisation in 0xA5-filled storage
 struct Node {
-	int lo = 0, hi = 0, serial = 0;
-	int hits = 0;
+	int lo, hi, serial;
+	int hits;
 	frg::rbtree_hook rb;
 	frg::interval_hook<int> ih;
+	Node() { lo = hi = serial = hits = 0; }
 };
 using ITree = frg::interval_tree<Node, int, &Node::lo, &Node::hi, &Node::rb, &Node::ih>;
 constexpr int POOL = 200;
 
 struct Run {
 	Ctx &c; ITree *tree; std::vector<Node *> ref; bool removed_before_query = false, interesting_query = false;
+	int off = 0;      // the whole universe is shifted by this amount (negative end points: nothing in the tree may assume P{} is a lower bound)
 	void query(int lb, int ub, bool single) {
 		for(Node *n : ref) n->hits = 0;
 		size_t calls = 0;
@@ -36,21 +40,27 @@ struct Run {
 		if(ref.size() >= 3 && expect > 0 && expect < ref.size() && removed_before_query) interesting_query = true;
 	}
 	void all_queries(int U) {
-		for(int lb = 0; lb < U; lb++) for(int ub = lb; ub < U; ub++) query(lb, ub, false);
-		for(int p = 0; p < U; p++) query(p, p, true);
-		query(-5, -1, false); query(U, U + 3, false); query(-3, U + 3, false);
+		for(int lb = 0; lb < U; lb++) for(int ub = lb; ub < U; ub++) query(off + lb, off + ub, false);
+		for(int p = 0; p < U; p++) query(off + p, off + p, true);
+		query(off - 5, off - 1, false); query(off + U, off + U + 3, false); query(off - 3, off + U + 3, false);
 	}
 };
 
 void run(Ctx &c, bool scripted) {
 	auto &t = c.t;
 	Node *pool = (Node *)c.raw(sizeof(Node) * POOL);
-	for(int i = 0; i < POOL; i++) { new (&pool[i]) Node(); pool[i].serial = i; }
+	memset((void *)pool, 0xA5, sizeof(Node) * POOL);
+	for(int i = 0; i < POOL; i++) { new (&pool[i]) Node; pool[i].serial = i; }
 	Run r{c, c.make<ITree>(), {}};
 	int next_free = 0; std::vector<Node *> free_list;
 	bool small = scripted || t.pick(3) != 0;
 	int U = scripted ? 4 : (small ? 8 : 100000);
-	c.op("%s universe 0..%d", scripted ? "scripted" : "history", U - 1);
+	static const int offsets[] = {0, 0, -3, -8, -20, -100000, -2000000000};
+	int OFF = scripted ? 0 : offsets[t.pick(7)];
+	if(OFF < -100000 && !small) OFF = -1000000000;         // keep off + U + 2000 inside int
+	r.off = OFF;
+	if(OFF < 0) c.tag(OFF + U <= 0 ? "universe-all-negative" : "universe-straddles-zero");
+	c.op("%s universe %d..%d", scripted ? "scripted" : "history", OFF, OFF + U - 1);
 	auto ins = [&](int lo, int hi) {
 		Node *n;
 		if(!free_list.empty() && !scripted && t.pick(3) == 0) { n = free_list.back(); free_list.pop_back(); c.tag("reinsert-removed-node"); }
@@ -80,11 +90,11 @@ void run(Ctx &c, bool scripted) {
 		if(t.pick(6) == 0) nops += t.pick(150);
 		for(unsigned i = 0; i < nops && !t.done(); i++) {
 			unsigned op = t.pick(10);
-			if(op < 5 || r.ref.empty()) { int lo = t.pick(U); int hi = lo + (t.pick(3) == 0 ? 0 : t.pick(small ? U - lo : 1000)); ins(lo, hi); }
+			if(op < 5 || r.ref.empty()) { int lo = t.pick(U); int hi = lo + (t.pick(3) == 0 ? 0 : t.pick(small ? U - lo : 1000)); ins(OFF + lo, OFF + hi); }
 			else if(op < 8) rem(t.pick(r.ref.size()));
-			else { int lb = t.pick(U), ub = lb + t.pick(small ? U - lb : 2000); bool single = t.pick(4) == 0; if(single) ub = lb; c.op("query(%d,%d)", lb, ub); r.query(lb, ub, single); continue; }
+			else { int lb = OFF + (int)t.pick(U), ub = lb + (int)t.pick(small ? OFF + U - lb : 2000); bool single = t.pick(4) == 0; if(single) ub = lb; c.op("query(%d,%d)", lb, ub); r.query(lb, ub, single); continue; }
 			if(small) r.all_queries(U);
-			else { for(int q = 0; q < 12; q++) { Node *n = r.ref.empty() ? nullptr : r.ref[t.pick(r.ref.size())]; int lb = n ? n->lo - 1 + (int)t.pick(3) : (int)t.pick(U); if(lb < 0) lb = 0; int ub = lb + (int)t.pick(n ? n->hi - n->lo + 3 : 100); r.query(lb, ub, false); } }
+			else { for(int q = 0; q < 12; q++) { Node *n = r.ref.empty() ? nullptr : r.ref[t.pick(r.ref.size())]; int lb = n ? n->lo - 1 + (int)t.pick(3) : OFF + (int)t.pick(U); if(lb < OFF) lb = OFF; int ub = lb + (int)t.pick(n ? n->hi - n->lo + 3 : 100); r.query(lb, ub, false); } }
 		}
 		c.tag(small ? "small-universe" : "large-universe");
 	}
